@@ -43,9 +43,9 @@ def harnesses():
                      domain="FULL operands; the two multipliers replaced by tagged mixing functions "
                             "(forwarding/plumbing only)", free_bits=3 * b + 2, stubs=MIX, abstract=True,
                      fns=["checked_mul", "saturating_mul", "Mul", "MulAssign", "Product<Uint>", "Product<&Uint>"]))
-    for b in [0, 1, 2, 7, 8, 16]:
+    for b in [1, 2, 7, 8, 16]:   # (Uint<0,1> is ill-formed: width 0 is covered by the glue harness)
         out.append(H("c02_narrow_%d" % b, "C02", "c02::narrow::<%d>" % b, unwind=4,
-                     tier="quick" if b in (0, 1, 8, 16) else "thorough", inst="Uint<%d,%d>" % (b, nlimbs(b)),
+                     tier="quick" if b in (1, 8, 16) else "thorough", inst="Uint<%d,%d>" % (b, nlimbs(b)),
                      domain="every operand pair of the width, real multipliers, oracle u64 arithmetic",
                      free_bits=2 * b, timeout=900,
                      fns=["overflowing_mul", "wrapping_mul", "checked_mul", "saturating_mul", "Mul", "DoubleWord::muladd2"]))
